@@ -616,6 +616,8 @@ FamTools(K, CH) ==
           \cup {Scn(gr, <<Build(Roots(gr), 2, 1), c, ToolsOp(t), Build(Roots(gr), 2, 1), Build(Roots(gr), 2, 1)>>) :
                   c \in Pick(CH, ChangesET(gr)), t \in {Roots(gr)} \cup Pick(1, {<<o>> : o \in AllOutsG(gr)})} :
           gr \in ToolGraphs(K) }
+  \* the tools read any loadable manifest, also one whose graph has a dependency cycle (only a build diagnoses it)
+  \cup UNION { {Scn(gr, <<ToolsOp(<<o>>)>>) : o \in Pick(1, AllOutsG(gr))} : gr \in Pick(2 * K, CycGraphs(K)) }
 
 \* both logs padded past their recompaction thresholds (op "inflate": copies of their own records, same meaning): the next
 \* ninja that opens them for writing recompacts.  Dyndep-discovered outputs (known to the log, not to the manifest),
